@@ -7,6 +7,14 @@
 -/
 import LccModel.Proto
 import LccModel.Model.MatcherObjJson
+import LccModel.Model.MatcherXValJson
 open LccModel LccModel.Proto
 
-def main : IO Unit := loop (wrap LccModel.MatcherObjJson.handle)
+/-- requests `{"xvals": …}` (stream `C17.jsonify`): `jsonify` and the leaf sentences on expected values of any class
+    (`Model/MatcherXVal.lean`) -/
+def handle (j : Lean.Json) : Except String Lean.Json :=
+  match j.getObjVal? "xvals" with
+  | .ok _ => LccModel.MatcherXValJson.handle j
+  | .error _ => LccModel.MatcherObjJson.handle j
+
+def main : IO Unit := loop (wrap handle)
